@@ -1,6 +1,7 @@
 import Driver.Common
 import Driver.ObjFmt
 import Parsley.Model.Obj
+import Parsley.Model.Indirect
 namespace Driver.C16
 open Parsley Parsley.Prim Parsley.Obj Driver
 
@@ -21,6 +22,17 @@ open Parsley Parsley.Prim Parsley.Obj Driver
                            several parses on ONE context of bound d and starting depth k0, a fresh buffer each; a step is a
                            case without its bound word (`nest <hex> <k>`, `cut <hex>`, `deep <n> arr`, ...); output: the steps'
                            lines joined by ` ; `, each with the delta depth after the step - depth before the step
+    `ind <d> <form> <num> <case without its bound word>`
+                           the case's input as the BODY of an indirect object `<num> 0 obj <body> endobj`, parsed by
+                           `parse_pdf_indirect_obj` (the model: `Indirect.parseIndirect`); also under `at` and as a `seq` step
+                           (`ind <form> <num> <case>`; the definitions of the context are shared by the steps: a second accepted
+                           object of the same number is a duplicate).  Forms: `p` plain; `s` the body as a value of a stream
+                           dictionary (`<</Length 3/K <body>>>` stream abc endstream: one level more); failures past `obj`:
+                           `e` `endobj` misspelt, `l` stream without /Length, `t` stream content shorter than /Length;
+                           `k` the keyword `obj` misspelt (failure before the body).
+                           Output: `ok <start> <end> <cursor> <depth delta> <num> <gen> <objstart> <objend> <value>` or
+                           `err <kind> <depth delta> <cursor>`; the value of a stream: its dictionary's (digest + ` st <content start>
+                           <size>` for `wide` / `run` bodies).
     Output for `wide` / `run` (harness and model): `ok <start> <stop> <cursor> <depth delta> dg n=<nodes> k=<depth>
     w=<largest number of children> h=<order-sensitive checksum>` or `err <kind> <delta>`: a digest instead of the value, to keep
     the lines short.  The harness runs EVERY C16 case on a thread with a fixed 1 MiB stack. -/
@@ -278,6 +290,95 @@ def modelStep (cur : Nat) (w : List String) : String × Nat :=
     | (.panic p, _) => (s!"panic {p}", c.cur)
   | none => ("bad-case", cur)
 
+/-! ### indirect objects around the bodies (after missed seed C16_8: `parse_pdf_indirect_obj` from a non-zero depth) -/
+
+/-- an `ind` case -/
+structure Ind where
+  d : Nat
+  form : String
+  num : Nat
+  /-- the body's case, WITH its bound word -/
+  inner : List String
+
+def indForms : List String := ["p", "s", "e", "l", "t", "k"]
+
+def indOf (w : List String) : Option Ind :=
+  match w with
+  | "ind" :: d :: form :: num :: kind :: args =>
+    match d.toNat?, num.toNat? with
+    | some dn, some nn => if indForms.contains form then some ⟨dn, form, nn, kind :: d :: args⟩ else none
+    | _, _ => none
+  | _ => none
+
+/-- the text around the body (must equal `ind_bytes` of harness/src/bin/c16.rs) -/
+def indHead (form : String) (num : Nat) : Bytes :=
+  strBytes (toString num) ++ strBytes (if form == "k" then " 0 ob " else " 0 obj ")
+def indOpen (form : String) : Bytes :=
+  if form == "s" then strBytes "<</Length 3/K " else if form == "t" then strBytes "<</Length 30/K "
+  else if form == "l" then strBytes "<</K " else []
+def indClose (form : String) : Bytes :=
+  if form == "s" || form == "t" || form == "l" then strBytes ">>\nstream\nabc\nendstream\nendobj"
+  else if form == "e" then strBytes " endobx" else strBytes " endobj"
+/-- levels the form adds around the body (the stream dictionary) -/
+def indExtra (form : String) : Nat := if form == "s" || form == "t" || form == "l" then 1 else 0
+/-- forms that are not indirect objects, whatever the body -/
+def indFails (form : String) : Bool := form == "e" || form == "l" || form == "t" || form == "k"
+
+/-- spec side: the output line of an accepted `ind` case over a width / length profile, from the description and the layout
+    of the text alone; `none`: must be rejected -/
+def Big.expectedInd (b : Big) (form : String) (num k0 : Nat) : Option String :=
+  match b.leaf.dg with
+  | none => none
+  | some g =>
+    if indFails form || k0 + b.depth + indExtra form > b.d then none
+    else
+      let hl := (indHead form num).length
+      let bodyLen := (b.prof.flatMap opener).length + b.leaf.len + (b.prof.flatMap closer).length
+      let vg := wrapDg b.prof g
+      if form == "s" then
+        let dictEnd := hl + (indOpen form).length + bodyLen + 2
+        let cs := dictEnd + 8                 -- `\nstream\n`
+        let oe := cs + 3 + 10                 -- `abc`, `\nendstream`
+        let e := oe + 7                       -- `\nendobj`
+        some s!"ok 0 {e} {e} 0 {num} 0 {hl} {oe} {(Dg.dict [([75], vg), (strBytes "Length", .int 3)]).show} st {cs} 3"
+      else
+        let os := hl + (if b.prof.isEmpty then b.leaf.lead else 0)
+        let oe := hl + bodyLen
+        some s!"ok 0 {oe + 7} {oe + 7} 0 {num} 0 {os} {oe} {vg.show}"
+
+/-- the model on an `ind` case: `Indirect.parseIndirect` on the context as it is (depth AND definitions) -/
+def runInd (c : Indirect.Ctx) (x : Ind) (body : Bytes) (big : Bool) : String × Indirect.Ctx :=
+  let s := indHead x.form x.num ++ indOpen x.form ++ body ++ indClose x.form
+  let (r, c') := Indirect.parseIndirect { c with max := x.d } s 0
+  let delta : Int := (c'.cur : Int) - c.cur
+  match r with
+  | (.ok v, k) =>
+    let o := v.val.obj
+    let shown :=
+      if big then
+        match o.val with
+        | .stream kvs sc => s!"{(dgObj (.dict kvs)).show} st {sc.start} {sc.size}"
+        | ov => (dgObj ov).show
+      else objSexp o.val
+    (s!"ok {v.start} {v.stop} {k} {delta} {v.val.num} {v.val.gen} {o.start} {o.stop} {shown}", c')
+  | (.err e, k) => (s!"err {e} {delta} {k}", c')
+  | (.panic p, _) => (s!"panic {p}", c')
+
+/-- one step on a context with definitions: `ind` steps by `parseIndirect`, the others by `modelStep` (the `ind` families stay
+    below the model's work budget: the model always runs) -/
+def modelStepC (c : Indirect.Ctx) (w : List String) : String × Indirect.Ctx :=
+  match indOf w with
+  | none => let (o, cur') := modelStep c.cur w; (o, { c with cur := cur' })
+  | some x =>
+    if c.cur > x.d then ("bad-case", c)
+    else
+      match bigOf x.inner with
+      | some b => runInd c x b.bytes true
+      | none =>
+        match inputOf x.inner with
+        | some (_, body) => runInd c x body false
+        | none => ("bad-case", c)
+
 /-- split a word list at the `;` words -/
 def splitSemi (ws : List String) : List (List String) :=
   let (cur, acc) := ws.foldl (fun (st : List String × List (List String)) x =>
@@ -298,16 +399,16 @@ def model (line : String) : String :=
     | some dn, some k0 =>
       if k0 > dn then "bad-case"
       else
-        let (outs, _) := (stepsOf d rest).foldl (fun (acc : List String × Nat) st =>
-          let (o, cur') := modelStep acc.2 st
-          (o :: acc.1, cur')) ([], k0)
+        let (outs, _) := (stepsOf d rest).foldl (fun (acc : List String × Indirect.Ctx) st =>
+          let (o, c') := modelStepC acc.2 st
+          (o :: acc.1, c')) ([], { Indirect.Ctx.new dn with cur := k0 })
         " ; ".intercalate outs.reverse
     | _, _ => "bad-case"
   | "at" :: k0 :: rest =>
-    match k0.toNat? with
-    | some k0 => (modelStep k0 rest).1
-    | none => "bad-case"
-  | w => (modelStep 0 w).1
+    match k0.toNat?, rest with
+    | some k0, _ :: d :: _ => (modelStepC { Indirect.Ctx.new (d.toNat?.getD 0) with cur := k0 } rest).1
+    | _, _ => "bad-case"
+  | w => (modelStepC (Indirect.Ctx.new (((w.drop 1).headD "0").toNat?.getD 0)) w).1
 
 /-- oracle for the width / length profiles, from the description alone -/
 def judgeBig (b : Big) (impl : String) (k0 : Nat := 0) : String :=
@@ -355,6 +456,67 @@ def judgeStep (k0 : Nat) (w : List String) (impl : String) : String :=
   | _, ["err", _, delta] => if delta != "0" then s!"bad depth-not-restored delta={delta} from={k0}" else "ok"
   | _, _ => "bad panic-or-crash"
 
+/-- oracle for ONE `parse_pdf_indirect_obj` on a context of depth `k0` in which the objects `defined` (numbers, generation
+    0) are already registered.  From the spec side: depth after = depth before for EVERY outcome (also every failure past the
+    `obj` keyword); accepted iff the text is an indirect object (form `p` / `s`, a valid body), the number is new, and
+    k0 + nesting(body) + the form's own levels <= d. -/
+def judgeInd (k0 : Nat) (x : Ind) (defined : List Nat) (impl : String) : String :=
+  let iw := words impl
+  let v := iw.headD "?"
+  let extra := indExtra x.form
+  let dup := defined.contains x.num
+  let mustFail := indFails x.form || dup
+  let big := bigOf x.inner
+  if v.startsWith "crash" || v == "hang" || v == "panic" then s!"bad panic-or-crash impl={v} ind={x.form}"
+  else
+    match iw with
+    | ["err", _, delta, _] =>
+      if delta != "0" then s!"bad depth-not-restored delta={delta} from={k0} ind={x.form}"
+      else if mustFail then "ok"
+      else
+        match big, x.inner with
+        | some b, _ =>
+          if (b.expectedInd x.form x.num k0).isSome then s!"bad valid-within-bound-rejected k={b.depth + extra} d={b.d} from={k0} ind={x.form}"
+          else "ok"
+        | none, "nest" :: _ :: _ :: k :: _ =>
+          if k0 + k.toNat! + extra ≤ x.d then s!"bad valid-within-bound-rejected k={k.toNat! + extra} d={x.d} from={k0} ind={x.form}"
+          else "ok"
+        | _, _ => "ok"
+    | "ok" :: _ :: _ :: _ :: delta :: num :: gen :: _ :: _ :: shown =>
+      if delta != "0" then s!"bad depth-not-restored delta={delta} from={k0} ind={x.form}"
+      else if mustFail then s!"bad malformed-indirect-accepted form={x.form} dup={dup}"
+      else if num != toString x.num || gen != "0" then "bad wrong-id"
+      else
+        match big, x.inner with
+        | some b, _ =>
+          match b.expectedInd x.form x.num k0 with
+          | some want => if impl.trimAscii.toString == want then "ok" else s!"bad wide-wrong-value want={want}"
+          | none =>
+            if b.leaf.dg.isSome then s!"bad deeper-than-bound-accepted k={b.depth + extra} d={b.d} from={k0} ind={x.form}"
+            else "bad non-object-accepted"
+        | none, "nest" :: _ :: _ :: k :: _ =>
+          if k0 + k.toNat! + extra > x.d then s!"bad deeper-than-bound-accepted k={k.toNat! + extra} d={x.d} from={k0} ind={x.form}"
+          else if sexpDepth (" ".intercalate shown) > k.toNat! + extra then "bad value-deeper-than-input"
+          else "ok"
+        | none, kind :: _ =>
+          if k0 + sexpDepth (" ".intercalate shown) > x.d then s!"bad deeper-than-bound-accepted from={k0} ind={x.form}"
+          else if kind == "deep" then "bad unclosed-accepted"
+          else "ok"
+        | _, _ => "bad panic-or-crash"
+    | _ => "bad panic-or-crash"
+
+/-- one step: `ind` steps by `judgeInd`, the others by `judgeStep` -/
+def judgeStepC (k0 : Nat) (defined : List Nat) (w : List String) (impl : String) : String :=
+  match indOf w with
+  | some x => judgeInd k0 x defined impl
+  | none => if w.head? == some "ind" then "bad panic-or-crash" else judgeStep k0 w impl
+
+/-- the definitions after a step: an accepted `ind` step registers its number -/
+def definedAfter (defined : List Nat) (w : List String) (impl : String) : List Nat :=
+  match indOf w with
+  | some x => if (words impl).head? == some "ok" then x.num :: defined else defined
+  | none => defined
+
 def judge (case impl : String) : String :=
   match words case with
   | "seq" :: d :: k0 :: rest =>
@@ -365,18 +527,18 @@ def judge (case impl : String) : String :=
     else if steps.length != outs.length || steps.isEmpty then "bad panic-or-crash"
     else
       -- the first step whose verdict is not `ok`, with its index
-      let rec go (i : Nat) : List (List String) → List String → String
+      let rec go (i : Nat) (defined : List Nat) : List (List String) → List String → String
         | st :: ss, o :: os =>
-          let j := judgeStep k0.toNat! st o
-          if j == "ok" then go (i + 1) ss os
+          let j := judgeStepC k0.toNat! defined st o
+          if j == "ok" then go (i + 1) (definedAfter defined st o) ss os
           else
             match words j with
             | "bad" :: cls :: more => s!"bad {cls} step={i + 1} {" ".intercalate more}"
             | _ => j
         | _, _ => "ok"
-      go 0 steps outs
-  | "at" :: k0 :: rest => judgeStep k0.toNat! rest impl
-  | w => judgeStep 0 w impl
+      go 0 [] steps outs
+  | "at" :: k0 :: rest => judgeStepC k0.toNat! [] rest impl
+  | w => judgeStepC 0 [] w impl
 
 /-- a nesting profile: openers (0 = array, 1 = dictionary value, 2 = array with a leading sibling) -/
 def render (profile : List Nat) (leaf : Bytes) : Bytes :=
@@ -416,6 +578,9 @@ def withD (d : Nat) (step : String) : String :=
   match words step with
   | kind :: args => " ".intercalate (kind :: toString d :: args)
   | [] => ""
+
+/-- a step: the step `step` as the body of indirect object `num` in form `form` -/
+def indStep (form : String) (num : Nat) (step : String) : String := s!"ind {form} {num} {step}"
 
 def seqCase (d k0 : Nat) (steps : List String) : String := s!"seq {d} {k0} ; " ++ " ; ".intercalate steps
 
@@ -602,15 +767,142 @@ def gen (seed n : Nat) (tier : String) (emit : String → IO Unit) : IO Unit := 
         rj2 := rj2 + 1
     emit (seqCase 3 1 [s!"run 1000 {kind} 2 a", s!"run 1000 {kind} {2 - ld} a", s!"run 1000 {kind} 2 m"])
 
-/-- non-trivial: at least two levels of nesting in the input; width / length profiles: at least 1000 units; `at`: starting
-    depth >= 1 and the inner case non-trivial; `seq`: at least two steps, one of them non-trivial -/
-def nontrivialW : List String → Bool
+  -- ===== INDIRECT OBJECTS (`ind`): `parse_pdf_indirect_obj` on `<num> 0 obj <body> endobj` from a context whose depth is k0 in
+  -- {0, 1, 2, d/2, d-1, d}; rem = d - k0 levels remain; a stream dictionary around the body takes one of them
+  let atK (k0 : Nat) (c : String) : String := if k0 == 0 then c else s!"at {k0} {c}"
+  for d in List.range 65 do
+    for k0 in (0 :: startDepths d) do
+      let rem := d - k0
+      for kind in [0, 1, 2] do
+        let one := thorough || kind == (d + k0) % 3
+        for off in [0, 1, 2, 3] do
+          -- plain objects: body nesting t in {rem-1, rem, rem+1, rem+2}
+          if rem + off ≥ 2 then
+            let t := rem + off - 1
+            if kind == 0 || t ≥ 2 then emit (atK k0 (withD d (indStep "p" 1 (nestStep kind t))))
+          -- stream objects: dictionary + body nesting in {rem-1, rem, rem+1, rem+2}
+          if one && rem + off ≥ 3 then
+            let t := rem + off - 2
+            emit (atK k0 (withD d (indStep "s" (1 + off) (nestStep kind t))))
+        -- every failure past the `obj` keyword (and one before it) with a body that fits / that exceeds the bound, and with a
+        -- syntax error at depth in the body
+        if one then
+          for form in ["e", "l", "t", "k"] do
+            let ex := indExtra form
+            if rem ≥ 1 + ex then emit (atK k0 (withD d (indStep form 7 (nestStep kind (rem - ex)))))
+            emit (atK k0 (withD d (indStep form 7 (nestStep kind (rem + 1 - ex)))))
+          for form in ["p", "s"] do
+            let t := Nat.max (rem - indExtra form) 1
+            emit (atK k0 (withD d (indStep form 2 (cutStep kind t ((d + k0 + t) % 3)))))
+  -- sequences mixing indirect and plain parses on ONE context (depth AND definitions shared)
+  for d in List.range 65 do
+    for k0 in (0 :: startDepths d) do
+      let rem := d - k0
+      for kind in (if thorough then [0, 1, 2] else [(d + k0) % 3]) do
+        let accP := if rem ≥ 1 then [nestStep kind rem] else []                       -- plain, exactly at the bound
+        let rejP := nestStep kind (rem + 1)
+        let accI (num : Nat) := if rem ≥ 1 then [indStep "p" num (nestStep kind rem)] else []
+        let rejI (num : Nat) := indStep "p" num (nestStep kind (rem + 1))
+        let accS (num : Nat) := if rem ≥ 2 then [indStep "s" num (nestStep kind (rem - 1))] else []
+        let rejS (num : Nat) := indStep "s" num (nestStep kind rem)
+        let syn (pos : Nat) := cutStep kind (Nat.max rem 1) pos
+        emit (seqCase d k0 (accI 1 ++ [rejP] ++ accI 2))                              -- indirect, plain rejection, indirect
+        emit (seqCase d k0 ([rejI 1] ++ accP ++ accI 1))                              -- a rejected object is not registered
+        emit (seqCase d k0 (accI 1 ++ accI 1 ++ accP ++ [rejP]))                      -- duplicate: rejected AFTER the body
+        emit (seqCase d k0 ([rejP] ++ accS 1 ++ [indStep "e" 2 (nestStep kind (Nat.max rem 1))] ++ accP))
+        emit (seqCase d k0 ([indStep "t" 1 (nestStep kind (Nat.max (rem - 1) 1)), indStep "l" 2 (nestStep kind (Nat.max (rem - 1) 1)), rejS 3] ++ accP))
+        emit (seqCase d k0 ([indStep "p" 1 (syn 0), rejP] ++ accI 1))                 -- syntax error at depth inside an object
+        emit (seqCase d k0 ([rejS 1, rejI 1, rejP] ++ accS 1))
+        emit (seqCase d k0 (accP ++ [indStep "k" 1 (nestStep kind (Nat.max rem 1))] ++ accI 1 ++ [rejI 2]))
+        if rem ≥ 2 then
+          emit (seqCase d k0 [indStep "p" 1 s!"deep {1000 + d} {if kind == 1 then "dict" else "arr"}", rejI 1, indStep "p" 1 (nestStep kind rem), nestStep kind rem])
+          emit (seqCase d k0 [indStep "s" 1 (nestStep kind (rem - 1)), indStep "p" 2 (nestStep kind (rem - 1)), indStep "s" 2 (nestStep kind (rem - 1)), rejP])
+  -- random bodies (profiles, leaves, truncations) in random forms from random starting depths, and random sequences mixing
+  -- them with plain steps
+  let mut r3 := Rng.mk' (seed + 104729)
+  let mut recentI : List String := []
+  for it in List.range (if thorough then n / 3 else n / 2) do
+    let (d0, ra) := r3.nat 12
+    let d := d0 + 1
+    let (kc, rb) := ra.nat 3
+    let (kr, rc) := rb.nat (d + 1)
+    let k0 := if kc == 0 then kr else (startDepths d)[kr % (startDepths d).length]?.getD 1
+    let (len, rd) := rc.nat 14
+    let (prof, re) := (List.range len).foldl (fun (acc : List Nat × Rng) _ =>
+      let (o, r) := acc.2.nat 3; (o :: acc.1, r)) ([], rd)
+    let (leaf, rf) := re.pick leaves
+    let sb := render prof leaf
+    let (cut, rg) := rf.nat (sb.length + 1)
+    let (f1, rh) := rg.pick ["p", "p", "p", "s", "s", "e", "l", "t", "k"]
+    let (f2, ri) := rh.pick ["p", "p", "s"]
+    let (num, rj) := ri.nat 4
+    let p1 := s!"nest {hexOfBytes sb} {len + 1}"
+    let st1 := indStep f1 num p1
+    let st2 := indStep f2 (num + 1) s!"cut {hexOfBytes (sb.take cut)}"
+    emit (atK k0 (withD d st1))
+    emit (atK k0 (withD d st2))
+    recentI := (st1 :: p1 :: st2 :: recentI).take 9
+    r3 := rj
+    if it % 2 == 1 then
+      let (sd, rk) := r3.nat 12
+      let (sk, rl) := rk.nat (sd + 1)
+      let (a, rm) := rl.pick recentI
+      let (b, rn) := rm.pick recentI
+      let (c, ro) := rn.pick recentI
+      let (three, rp) := ro.nat 2
+      r3 := rp
+      emit (seqCase sd sk (if three == 1 then [a, b, c] else [a, b]))
+  -- unclosed nesting inside an indirect object
+  for nn in deeps do
+    for d in [1, 50, 64] do
+      for k0 in (0 :: startDepths d) do
+        emit (atK k0 s!"ind {d} {if (d + k0) % 3 == 0 then "s" else "p"} 1 deep {nn} {if (d + k0) % 2 == 0 then "arr" else "dict"}")
+  -- width profiles as bodies (widths 300 / 1000: below the model's work budget): the wide level at position 1, rem'/2,
+  -- rem'-1 (elements exactly at the bound) and rem' (one beyond), rem' = what remains inside the form
+  let mut wj := 0
+  for d in [2, 3, 50, 64] do
+    for k0 in (0 :: startDepths d) do
+      for form in ["p", "s"] do
+        let rem := d - k0 - indExtra form
+        let shape := if wj % 2 == 0 then "arr" else "dict"
+        for q in ([1, rem / 2, rem - 1, rem].filter (· ≥ 1)).eraseDups do
+          let e := elemKinds[wj % elemKinds.length]?.getD "int"
+          let wrap := ["a", "d", "m"][wj % 3]?.getD "a"
+          emit (atK k0 s!"ind {d} {form} 1 wide 300 {shape} {e} {q - 1} {wrap} -")
+          if thorough || wj % 12 == 0 then emit (atK k0 s!"ind {d} {form} 1 wide 1000 {shape} {elemKinds[(wj + 5) % elemKinds.length]?.getD "int"} {q - 1} {wrap} -")
+          if wj % 2 == 0 then emit (atK k0 s!"ind {d} {form} 1 wide 300 {shape} {elemKinds[wj % 10]?.getD "int"} {q - 1} m deep")
+          wj := wj + 1
+  emit (seqCase 64 32 ["ind p 1 wide 1000 dict arr1 30 m -", "wide 1000 dict int 30 m -", "ind s 2 wide 1000 dict arr1 29 m -", "ind p 1 wide 300 arr int 0 a -"])
+  -- length profiles as bodies: at the bound and one beyond, plain and as a stream-dictionary value
+  let mut rj3 := 0
+  for kind in runKinds do
+    let ld := if kind == "kvws" || kind == "bigkey" then 2 else 1
+    for (d, k0) in [(2, 0), (3, 1), (64, 32), (64, 61), (3, 3)] do
+      let form := if rj3 % 3 == 2 then "s" else "p"
+      let ex := indExtra form
+      if d - k0 ≥ ld + ex then
+        let p := d - k0 - ld - ex
+        let wrap := ["a", "d", "m"][rj3 % 3]?.getD "a"
+        emit (atK k0 s!"ind {d} {form} 1 run 1000 {kind} {p} {wrap}")
+        emit (atK k0 s!"ind {d} {form} 1 run 1000 {kind} {p + 1} {wrap}")
+      else if d == k0 then emit (atK k0 s!"ind {d} {form} 1 run 1000 {kind} 0 a")
+      rj3 := rj3 + 1
+    emit (seqCase 3 1 [s!"ind p 1 run 1000 {kind} {2 - ld} a", s!"run 1000 {kind} 2 a", s!"ind p 1 run 1000 {kind} {2 - ld} m", s!"ind s 2 run 1000 {kind} 0 a"])
+
+/-- non-trivial: at least two levels of nesting in the input; width / length profiles: at least 1000 units; `ind`: the body's
+    case non-trivial; `at`: starting depth >= 1 and the inner case non-trivial; `seq`: at least two steps, one of them non-trivial -/
+def nontrivialW0 : List String → Bool
   | "nest" :: _ :: _ :: k :: _ => k.toNat! ≥ 2
   | "cut" :: _ :: hex :: _ => hex.length ≥ 6
   | "deep" :: _ => true
   | "wide" :: _ :: n :: _ => n.toNat! ≥ 1000
   | "run" :: _ :: n :: _ => n.toNat! ≥ 1000
   | _ => false
+
+def nontrivialW (w : List String) : Bool :=
+  match indOf w with
+  | some x => nontrivialW0 x.inner
+  | none => nontrivialW0 w
 
 def nontrivial (line : String) : Bool :=
   match words line with
